@@ -1,4 +1,6 @@
-(* Model of /repo/packet/io.go : Sync / IsSynced over a bufio-like reader ORACLE.
+(* Model of /repo/packet/io.go : Sync / IsSynced, written over any PeekScanner implementation
+   and instantiated with a bufio-like reader ORACLE (and, in Model/Bufio.v, with a transcription
+   of bufio.Reader that Proofs/BufioRefines.v proves to implement this oracle).
    The model is that of the REPAIRED code (notes/candidate-fixes.patch, hunk packet/io.go:
    `off++` after the second ReadByte on the false-sync path; defect F1 of DESIGN section 7).
 
@@ -7,8 +9,9 @@
      - the stream is a finite byte list `rest` followed by a sticky terminal error `terr`
        (io.EOF = E.EOF, or any other error);
      - ReadByte returns the next byte, or `terr` when none is left (state unchanged);
-     - UnreadByte succeeds exactly when the previous operation was a successful ReadByte
-       (bufio: lastByte >= 0) and puts that byte back; otherwise bufio.ErrInvalidUnreadByte;
+     - UnreadByte succeeds when a byte has been read and neither UnreadByte nor Peek happened since
+       (bufio: lastByte >= 0; a failed ReadByte leaves lastByte alone) and puts that byte back;
+       otherwise bufio.ErrInvalidUnreadByte;
      - Peek n returns the next n bytes without consuming them, or fails with `terr` when
        fewer than n remain (n = 4 <= minimum bufio size 16, so ErrBufferFull cannot occur);
        Peek invalidates UnreadByte (bufio sets lastByte = -1). *)
@@ -33,9 +36,11 @@ Definition unread_byte (r : reader) : option N * reader :=
 Definition peek (n : N) (r : reader) : (bytes + N) * reader :=
   let r' := mkR (rest r) None (terr r) in
   if n <=? len (rest r) then (inl (takeN n (rest r)), r') else (inr (terr r), r').
-(* io.ReadFull(r, buf[:n]) through bufio.Reader.Read: the next min(n, remaining) bytes *)
+(* io.ReadFull(r, buf[:n]) through bufio.Reader.Read: the next min(n, remaining) bytes
+   (lastByte becomes the last byte delivered) *)
 Definition read_n (n : N) (r : reader) : bytes * reader :=
-  (takeN n (rest r), mkR (dropN n (rest r)) None (terr r)).
+  let out := takeN n (rest r) in
+  (out, mkR (dropN n (rest r)) (match rev out with c :: _ => Some c | [] => last r end) (terr r)).
 
 (* err == io.EOF -> gots.ErrSyncByteNotFound, any other error as is *)
 Definition map_err (e : N) : N := if e =? E.EOF then E.SyncByteNotFound else e.
